@@ -10,6 +10,7 @@ import (
 	"github.com/arm-doe/sts"
 	"github.com/arm-doe/sts/fileutil"
 	"github.com/arm-doe/sts/log"
+	"github.com/arm-doe/sts/verifhook"
 )
 
 // Conf is the struct for storing all the settable components and options for
@@ -166,25 +167,32 @@ func (broker *Broker) Start(stop <-chan bool, done chan<- bool) {
 	// the retrier may write to
 	wgFailed.Wait()
 	close(broker.chScanned)
+	verifhook.At("client.close", "ch", "scanned", "name", broker.Conf.Name)
 
 	wgQueued.Wait()
 	close(broker.chQueued)
+	verifhook.At("client.close", "ch", "queued", "name", broker.Conf.Name)
 
 	wgTransmit.Wait()
 	close(broker.chTransmit)
+	verifhook.At("client.close", "ch", "transmit", "name", broker.Conf.Name)
 
 	wgTransmitted.Wait()
 	close(broker.chTransmitted)
+	verifhook.At("client.close", "ch", "transmitted", "name", broker.Conf.Name)
 
 	wgValidate.Wait()
 	close(broker.chValidate)
+	verifhook.At("client.close", "ch", "validate", "name", broker.Conf.Name)
 	close(broker.chStats)
 	wgStats.Wait()
 
 	wgValidated.Wait()
 	close(broker.chRetry)
+	verifhook.At("client.close", "ch", "retry", "name", broker.Conf.Name)
 
 	wgFailed.Wait()
+	verifhook.At("client.return", "name", broker.Conf.Name)
 }
 
 func (broker *Broker) info(params ...interface{}) {
@@ -487,6 +495,7 @@ func (broker *Broker) recover() (send []sts.Hashed, err error) {
 
 func (broker *Broker) startScan(wg *sync.WaitGroup) {
 	defer wg.Done()
+	defer verifhook.At("client.exit", "who", "scan", "name", broker.Conf.Name)
 	defer log.Debug("Scanner done")
 	var wait <-chan time.Time
 	for {
@@ -759,6 +768,7 @@ func (broker *Broker) hash(
 
 func (broker *Broker) startQueue(wg *sync.WaitGroup) {
 	defer wg.Done()
+	defer verifhook.At("client.exit", "who", "queue", "name", broker.Conf.Name)
 	defer log.Debug("Sorter done")
 	in := broker.chScanned
 	out := broker.chQueued
@@ -806,6 +816,7 @@ func (broker *Broker) startQueue(wg *sync.WaitGroup) {
 
 func (broker *Broker) startBin(wg *sync.WaitGroup) {
 	defer wg.Done()
+	defer verifhook.At("client.exit", "who", "bin", "name", broker.Conf.Name)
 	defer log.Debug("Binner done")
 	var payload sts.Payload
 	var sendable sts.Sendable
@@ -884,6 +895,7 @@ func (broker *Broker) startBin(wg *sync.WaitGroup) {
 
 func (broker *Broker) startSend(wg *sync.WaitGroup) {
 	defer wg.Done()
+	defer verifhook.At("client.exit", "who", "send", "name", broker.Conf.Name)
 	defer log.Debug("Sender done")
 	in := broker.chTransmit
 	out := broker.chTransmitted
@@ -1063,6 +1075,7 @@ func (broker *Broker) stat(payload sts.Payload) {
 
 func (broker *Broker) startStats(wg *sync.WaitGroup) {
 	defer wg.Done()
+	defer verifhook.At("client.exit", "who", "stats", "name", broker.Conf.Name)
 	defer log.Debug("Stats done")
 	for payload := range broker.chStats {
 		broker.throughput.add(
@@ -1073,6 +1086,7 @@ func (broker *Broker) startStats(wg *sync.WaitGroup) {
 
 func (broker *Broker) startTrack(wg *sync.WaitGroup) {
 	defer wg.Done()
+	defer verifhook.At("client.exit", "who", "track", "name", broker.Conf.Name)
 	defer log.Debug("Tracker done")
 	in := broker.chTransmitted
 	out := broker.chValidate
@@ -1185,6 +1199,7 @@ func (broker *Broker) startTrack(wg *sync.WaitGroup) {
 
 func (broker *Broker) startValidate(wg *sync.WaitGroup) {
 	defer wg.Done()
+	defer verifhook.At("client.exit", "who", "validate", "name", broker.Conf.Name)
 	defer log.Debug("Validator done")
 	in := broker.chValidate
 	poll := make(map[string]*progressFile)
@@ -1326,6 +1341,7 @@ func (broker *Broker) finish(file sts.Polled) {
 
 func (broker *Broker) startRetry(wg *sync.WaitGroup) {
 	defer wg.Done()
+	defer verifhook.At("client.exit", "who", "retry", "name", broker.Conf.Name)
 	defer log.Debug("Retry-er done")
 	store := broker.Conf.Store
 	cache := broker.Conf.Cache
